@@ -16,6 +16,22 @@ NOTES = ('Every check executes the implementation in /repo/src (working tree) '
          'DESIGN.md.')
 
 CHECKS = [
+    {'id': 'C08', 'engine': 'explore', 'level': 'exploration',
+     'design_ref': 'DESIGN.md §4 C08',
+     'technique': 'exhaustive small-scope enumeration of pattern lists x names '
+                  'on the real build_filtering_func against an independent '
+                  'algebraic spec, plus end-to-end -t/--layer runs of the real '
+                  'Runner (module filtering end-to-end is in C14)',
+     'text': 'Every list of <=3 (thorough: 4) patterns over 14 regexes (anchors, '
+             'alternations incl. ^a|b, empty, never-matching, character '
+             'classes) x {plain, negated} is evaluated on 13 names and '
+             'compared with union-of-positives-minus-union-of-negatives in '
+             'search mode; every permutation, duplication and one-pattern '
+             'extension is checked for order independence and monotonicity; '
+             'every list of <=2 (thorough: 3) -t and --layer patterns is run '
+             'on a 5-test/3-layer world and the executed set compared with '
+             'the spec.',
+     'note': 'The regex alphabet is finite; names are non-empty.'},
     {'id': 'C13', 'engine': 'explore', 'level': 'exploration',
      'design_ref': 'DESIGN.md §4 C13',
      'technique': 'bounded exhaustive enumeration of (outcome, write pattern) '
@@ -152,7 +168,7 @@ CHECKS = [
              'nodes use whatever id() order the interpreter gives.'},
 ]
 
-_PENDING = ['C03', 'C06', 'C07', 'C08', 'C09',
+_PENDING = ['C03', 'C06', 'C07', 'C09',
             'C10', 'C11', 'C14', 'C15', 'C17', 'C18',
             'C19']
 _DONE = {c['id'] for c in CHECKS}
